@@ -45,6 +45,12 @@ type Config struct {
 	NAccounts        int  `json:"n_accounts"`
 	NBrowsers        int  `json:"n_browsers"`
 	WholeSecondClock bool `json:"whole_second_clock"`
+	// OAuth2ExtraParams: the providers are configured with AdditionalParams
+	OAuth2ExtraParams bool `json:"oauth2_extra_params,omitempty"`
+	// DBZoneOffset (seconds east of UTC): the user store hands time values back
+	// in this zone (same instants), as database drivers with a session time
+	// zone do. 0 = as stored.
+	DBZoneOffset int `json:"db_zone_offset,omitempty"`
 	// SecondSite: the process hosts a second, independent authboss instance
 	// (initialised after the first, same modules, its own user store in which
 	// the same identifiers have other passwords and no lock, confirmation or
@@ -197,6 +203,10 @@ func baseConfig(r *Rng) Config {
 	c.WholeSecondClock = r.Bool()
 	c.NilEmptyState = r.Chance(1, 3)
 	c.SecondSite = r.Chance(1, 3)
+	c.OAuth2ExtraParams = r.Bool()
+	if r.Chance(1, 3) {
+		c.DBZoneOffset = []int{3 * 3600, -5 * 3600, 5*3600 + 45*60, 14 * 3600, -11 * 3600}[r.Intn(5)]
+	}
 	for i := 0; i < c.NAccounts; i++ {
 		a := AcctSpec{Confirmed: r.Chance(5, 6)}
 		if c.hasSetup("totp") && r.Chance(1, 3) {
